@@ -14,7 +14,7 @@ sys.path.insert(0, os.environ.get("VERIF_REPO", "/repo"))
 
 NOT_APPLICABLE = {}
 # only modules listed here are registered (others may be work in progress)
-READY = ["C01", "C02", "C03", "C04", "C05", "C06", "C07", "C08", "C10", "C11", "C12", "C13", "C14", "C15", "C16", "C17", "C18", "C19", "C20"]
+READY = ["C01", "C02", "C03", "C04", "C05", "C06", "C07", "C08", "C09", "C10", "C11", "C12", "C13", "C14", "C15", "C16", "C17", "C18", "C19", "C20"]
 
 FIX_COMMITS_NOTE = ("No source hooks are needed: time, the attacher singleton, tempfile and os.urandom are "
                     "substituted from the harness side per case. source_commits is therefore empty; the "
